@@ -65,9 +65,16 @@ def observe(sess, hist, op, exc, valid, reason, pre, acc):
 _shard = kcommon.make_run(__name__, "observe")
 
 
+_chain = kcommon.make_chain_run(__name__, "observe")
+
+
 def run(tier):
-    return kcommon.run_configs(__name__, tier)
+    acc = kcommon.run_configs(__name__, tier)
+    # straight-line histories in ONE context on ONE object (in-memory table state that a restore from
+    # file bytes cannot carry, e.g. aliased entries), incl. tables that keep >= 2 unused slots
+    acc.merge(core.pmap(__name__, "_chain", [c.to_witness() for c in kcommon.chain_configs(tier, deep=True)]))
+    return acc
 
 
 def replay(w):
-    return kcommon.replay(w, observe)
+    return kcommon.replay_any(w, observe)
